@@ -398,7 +398,7 @@ pub fn run(ctx: &Ctx) -> Report {
     //      and inner handshake responses of every legal shape (capability masks, max-packet,
     //      charset, MariaDB-style extended capabilities in the reserved bytes), accept and reject
     if let Some(tm) = tls.as_ref() {
-        let n = ctx.n(400, 20_000);
+        let n = ctx.n(400, 3000);
         let r = par_cases(ctx, "C11", "tls-upgrade", n, |rng, i, rep| {
             let user: Vec<u8> = user_name(rng, i).into_iter().filter(|b| *b != 0).take(300).collect();
             let reject = i % 5 == 3;
